@@ -458,6 +458,9 @@ func c2RunInput(in *c2Input) (*c2Result, error) {
 			if o.C == nil {
 				return nil, fmt.Errorf("reload without config")
 			}
+			if o.C.Dry != env.conf.get().Dry {
+				res.Tags["dryrun-toggled-by-reload"] = true
+			}
 			env.conf.set(*o.C)
 			env.coll.VerifC04Reload()
 			text = cq.App("Reload", c2CfgCoq(*o.C))
